@@ -62,6 +62,8 @@ codes! { OpCode, OPS:
     BulkDowngrade = "bulkdowngrade" / 2, // h, n
     BulkDrop = "bulkdrop" / 2,     // h, n   (drop n bulk strong handles of that object)
     BulkWeakDrop = "bulkweakdrop" / 2, // w, n
+    BulkRegister = "bulkregister" / 2, // h, n   (n no-op actions on the cleaner of that node; the cleanables are kept)
+    BulkClean = "bulkclean" / 2,   // h, n   (clean() on the next n kept cleanables of that node)
     Compare = "compare" / 2,       // h, h   (forwarding traits, ptr_eq)
     Observe = "observe" / 0,       // explicit full observation (also runs after every op)
 }
@@ -89,6 +91,7 @@ codes! { MiniCode, MINIS:
     CloneRootToSlot = "root2slot" / 2, // closure: the new node's slot i := clone of table handle h [clo]
     DowngradeRoot = "downgraderoot" / 1, // downgrade a table handle into the weak table [fin act]
     MarkAliveRoot = "markaliveroot" / 1, // [fin]
+    CollectCatch = "collectcatch" / 0, // collect_cycles() inside catch_unwind: a panic of that collection is caught by the callback itself [fin drop act]
     AllocCyclic = "alloccyclic" / 1, // Cc::new_cyclic(node with store kind) -> table [fin drop act]
     SelfWeakToSlot = "selfweak2slot" / 1, // upgrade self_weak and store the result in the own slot i [fin]
     WeakToSlot = "weak2slot" / 2,   // upgrade stored weak i and store the result in the own slot j  [fin]
@@ -199,6 +202,7 @@ pub struct ThreadPlan {
     pub tls_keep: u32,   // how many handles are moved into the user thread-local at the end
     pub ops: Vec<Op>,
     pub knobs: Knobs,
+    pub faults: Vec<Fault>, // injected callback panics of this thread's own program
 }
 
 impl Program {
@@ -274,6 +278,9 @@ impl Program {
         }
         for (i, t) in self.threads.iter().enumerate() {
             let _ = writeln!(s, "thread {} tlsfirst={} tlskeep={} {}", i, t.tls_first as u8, t.tls_keep, knobs_to_text(&t.knobs));
+            for f in &t.faults {
+                let _ = writeln!(s, "tfault {} {}", f.kind.name(), f.k);
+            }
             for op in &t.ops {
                 s.push_str("top ");
                 op_to_text(op, &mut s);
@@ -332,7 +339,7 @@ impl Program {
                 "thread" => {
                     let mut it = rest.split_whitespace();
                     let _idx = it.next();
-                    let mut tp = ThreadPlan { tls_first: false, tls_keep: 0, ops: Vec::new(), knobs: Knobs::default() };
+                    let mut tp = ThreadPlan { tls_first: false, tls_keep: 0, ops: Vec::new(), knobs: Knobs::default(), faults: Vec::new() };
                     let mut ktext = String::new();
                     for kv in it {
                         if let Some(v) = kv.strip_prefix("tlsfirst=") {
@@ -346,6 +353,18 @@ impl Program {
                     }
                     tp.knobs = parse_knobs(ktext.trim()).map_err(|e| err(&e))?;
                     p.threads.push(tp);
+                }
+                "tfault" => {
+                    let v: Vec<&str> = rest.split_whitespace().collect();
+                    if v.len() != 2 {
+                        return Err(err("tfault needs kind and index"));
+                    }
+                    let kind = FaultKind::from_name(v[0]).ok_or_else(|| err("unknown fault kind"))?;
+                    let f = Fault { kind, k: v[1].parse().map_err(|_| err("bad fault index"))? };
+                    match p.threads.last_mut() {
+                        Some(t) => t.faults.push(f),
+                        None => return Err(err("`tfault` before any `thread`")),
+                    }
                 }
                 "top" => {
                     let op = parse_op(rest).map_err(|e| err(&e))?;
